@@ -523,3 +523,51 @@ def check_provider_known_unknown(chk, ix):
                   "%s with the data {os: 'linux', browser: None}: the lookups %s answer %r, expected %r (lookup #%d differs): what is known is "
                   "decided by the data, a value of None is a value, and an earlier lookup of an unknown category must not make it known" % (
                       pname, [list(x[:2]) for x in script], got, wants, bad + 1), cur.path)
+
+
+
+def check_value_objects_concrete(chk, ix):
+    """A6 on concrete tag values (constant folding; int / str.lower / set membership are Python's): number and boolean
+    value objects compare well-formed values with their operator and count malformed ones as not matching - whatever
+    the malformed text is, no exception leaves matches()."""
+    chk.rule("A6", WHAT["A6"])
+    from .values import ModuleVal
+    cases = [("NumberValueObject", 5, "eq", "5", True), ("NumberValueObject", 5, "eq", "6", False), ("NumberValueObject", 5, "ge", "3", True),
+             ("NumberValueObject", 5, "le", "3", False), ("NumberValueObject", -5, "eq", "-5", True), ("NumberValueObject", 3, "ge", "+3", True),
+             ("NumberValueObject", 5, "eq", " 5 ", True), ("NumberValueObject", 5, "eq", "five", False), ("NumberValueObject", 5, "eq", "", False),
+             ("NumberValueObject", 5, "eq", "5.0", False),
+             ("BoolValueObject", True, "eq", "yes", True), ("BoolValueObject", True, "eq", "TRUE", True), ("BoolValueObject", True, "eq", "off", False),
+             ("BoolValueObject", False, "eq", "no", True), ("BoolValueObject", True, "eq", "maybe", False), ("BoolValueObject", False, "eq", "maybe", False),
+             ("BoolValueObject", True, "eq", "1", False), ("BoolValueObject", True, "eq", "", False)]
+    for cname, current, op, tag_value, want in cases:
+        ci = ix.cls("behave.tag_matcher:" + cname)
+        mf = ci.lookup("matches")
+        it = Interp(ix, stubs={"LoggerTok.error": lambda i, s, a, k, n: [(s, "val", None)], "LoggerTok.warning": lambda i, s, a, k, n: [(s, "val", None)],
+                               "logging.getLogger": lambda i, s, a, k, n: [(s, "val", s.alloc(HObj("LoggerTok", {}, open=True)))]},
+                    name=cname + ".matches concrete")
+        it.int_sat = 100000
+        it.list_cap = 100
+        it.shared_consts = True
+        st = State()
+        st.frames = []
+        me = st.alloc(HObj(ci, {"_value": current, "compare": ModuleVal("operator." + op)}, label=cname))
+        try:
+            outs = it.call_function(st, mf, [tag_value], {}, None, self_val=me)
+        except AnalysisError as e:
+            raise AnalysisError("%s.matches(%r) not foldable: %s" % (cname, tag_value, e))
+        chk.absorb(it)
+        chk.instance("A6")
+        got = set()
+        raised = None
+        for (s_, k, v) in outs:
+            if k != "val":
+                raised = v
+                continue
+            for (_s, b) in it.truth(s_.fork(), v):
+                got.add(b)
+        if raised is None and got == {want}:
+            chk.ok("A6", {"value object": "%s(%r, operator.%s)" % (cname, current, op), "tag value": tag_value, "matches": want}, nontrivial_key=(cname, current, op, tag_value))
+        else:
+            _fail(chk, "A6", mf, "%s(%r, %s).matches(%r) -> %s" % (cname, current, op, tag_value, ("raises " + raised.clsname()) if raised is not None else sorted(got)),
+                  "%s(%r, operator.%s).matches(%r) %s; expected %s (a malformed value counts as not matching: it never raises and never matches)" % (
+                      cname, current, op, tag_value, ("raises %s" % raised.clsname()) if raised is not None else "gives %s" % sorted(got), want))
